@@ -96,7 +96,7 @@ FullCondUniverse == UNION {{Cond(fn, n, g) : n \in BOOLEAN, g \in CondsOf(fn)} :
 
 \* reduced universe for deep programs: two value choices per function
 Reduced(fn) == CASE fn = "ip" -> {G(<<P4(10,0,0,0,8)>>), G(<<P4(10,1,2,3,32), Pfx(6, V6(1).b, 128)>>)}
-                 [] fn = "sip" -> {G(<<P4(10,1,2,2,31)>>)}
+                 [] fn = "sip" -> {G(<<P4(10,1,2,2,31)>>), G(<<P4(10,0,0,0,8)>>)}     \* shares a set with ip(): storage sharing
                  [] fn = "port" -> {G(<<<<53,53>>>>), G(<<<<53,53>>, <<1024,65535>>>>)}
                  [] fn = "sport" -> {G(<<<<53,53>>>>), G(<<<<1024,65535>>>>)}
                  [] fn = "l4proto" -> {G(<<"udp">>)}
@@ -293,7 +293,7 @@ PktsFam(F, fam) ==
                                                   l4 \in D("l4"), mac \in D("mac"), ds \in D("dscp"), pn \in D("pname"), dm \in D("domain")}
 \* deep programs: per mentioned field a small set of representatives (boundaries are covered by Level "single")
 RepDom(field, fam) == CASE field = "dip" -> IF fam = 4 THEN {A4(10,1,2,3), A4(10,0,0,0), A4(11,0,0,0)} ELSE {V6(1), V6(2)}
-                        [] field = "sip" -> IF fam = 4 THEN {A4(10,1,2,2), A4(10,1,2,4)} ELSE {V6(2)}
+                        [] field = "sip" -> IF fam = 4 THEN {A4(10,1,2,2), A4(10,1,2,4), A4(11,0,0,0)} ELSE {V6(2)}
                         [] field = "dport" -> {53, 54, 1024} [] field = "sport" -> {53, 1024, 1023}
                         [] field = "l4" -> {"tcp", "udp"} [] field = "mac" -> Macs [] field = "dscp" -> {0, 63}
                         [] field = "pname" -> {PnNone, PnCurl, Pn15} [] field = "domain" -> {DomNone, DomAB, DomXAB, DomB}
